@@ -661,6 +661,12 @@ static void
 try_raise (OrcCompiler *compiler, int *indexes, int i)
 {
   if (can_raise (compiler, indexes, i)) {
+    /* the loaded value now lives across the instruction it moves above:
+     * that instruction must not pick the register as a scratch register */
+    OrcVariable *const dest =
+        compiler->vars + compiler->insns[indexes[i]].dest_args[0];
+    if (dest->first_use > indexes[i-1])
+      dest->first_use = indexes[i-1];
     do_swap (indexes, i-1, i);
     try_raise (compiler, indexes, i-1);
   }
@@ -697,6 +703,12 @@ static void
 try_lower (OrcCompiler *compiler, int *indexes, int i)
 {
   if (can_lower (compiler, indexes, i)) {
+    /* likewise the stored value stays live across the instruction the store
+     * moves below */
+    OrcVariable *const src =
+        compiler->vars + compiler->insns[indexes[i]].src_args[0];
+    if (src->last_use < indexes[i+1])
+      src->last_use = indexes[i+1];
     do_swap (indexes, i, i+1);
     try_lower (compiler, indexes, i+1);
   }
@@ -712,10 +724,13 @@ optimise_order (OrcCompiler *compiler, int *const indexes)
 {
   for (int i=0; i<compiler->n_insns; i++) {
     const OrcInstruction *const insn = compiler->insns + indexes[i];
-    if (insn->opcode->flags & ORC_STATIC_OPCODE_LOAD) {
+    /* only the plain loads and stores move: their rules need no scratch
+     * registers, which are chosen for the place an instruction had when
+     * registers were allocated */
+    if (insn->opcode->flags == ORC_STATIC_OPCODE_LOAD) {
       try_raise(compiler, indexes, i);
     }
-    else if (insn->opcode->flags & ORC_STATIC_OPCODE_STORE) {
+    else if (insn->opcode->flags == ORC_STATIC_OPCODE_STORE) {
       try_lower(compiler, indexes, i);
     }
   }
@@ -750,7 +765,8 @@ orc_x86_emit_loop (OrcCompiler *compiler, int offset, int update)
     insn = compiler->insns + insn_idx[j];
     opcode = insn->opcode;
 
-    compiler->insn_index = j;
+    /* liveness of variables is recorded by instruction, not by position */
+    compiler->insn_index = insn_idx[j];
 
     if (insn->flags & ORC_INSN_FLAG_INVARIANT)
       continue;
